@@ -15,7 +15,7 @@ from datetime import timedelta
 
 sys.path.insert(0, os.path.join(os.path.dirname(os.path.abspath(__file__)), "..", "harness"))
 from lib import *  # noqa: E402,F401,F403
-from lib import (BASE, C, Peer, RecSession, mkserver, pkt, hs_response, com_stmt_execute, com_query,
+from lib import (parse_coldef, BASE, C, Peer, RecSession, mkserver, pkt, hs_response, com_stmt_execute, com_query,
                  decode_resultset, decode_text_row, decode_binary_row, parse_err, settle, split_packets, Bad,
                  T_VAR_STRING, T_LONGLONG, lenstr)
 
@@ -533,6 +533,31 @@ async def D16b():
     return r1 == [b"t"] and r2 == [b"c"] and r3 == [b"db2"], (r1, r2, r3)
 
 
+async def D16d():
+    """COM_FIELD_LIST for a column that declares a default value: the column definition must stay decodable
+    (default = one length-encoded string)"""
+    from mysql_mimic.schema import Column, InfoSchema, info_schema_tables
+
+    class S(RecSession):
+        async def schema(self):
+            return InfoSchema(info_schema_tables([Column(name="c", type="INT", table="t", schema="db", default="42"),
+                                                  Column(name="d", type="TEXT", table="t", schema="db")]))
+    s = S()
+    srv = mkserver([s])
+    a = Peer(srv)
+    await a.login()
+    out = await a.cmd(b"\x04t\0")
+    got = []
+    try:
+        for _, p in out[:-1]:
+            cd = parse_coldef(p, field_list=True)
+            got.append((cd["name"], cd["default"]))
+    except Bad as e:
+        got.append(("bad", str(e)))
+    await a.finish()
+    return got == [(b"c", b"42"), (b"d", None)], got
+
+
 # --------------------------------------------------------------------------- C18
 async def D18():
     ids = {LocalControl(server_id=0).server_id for _ in range(8)}
@@ -544,7 +569,7 @@ ALL = {
     "D5c": ("C05", D5c), "D6": ("C06", D6), "D7": ("C07", D7), "D9a": ("C09", D9a), "D9b": ("C09", D9b),
     "D9c": ("C09", D9c), "D9d": ("C09", D9d), "D10a": ("C03", D10a), "D10b": ("C03", D10b),
     "D10c": ("C03", D10c), "D11": ("C11", D11), "D13": ("C13", D13), "D13b": ("C13", D13b), "D13c": ("C13", D13c), "D14": ("C14", D14), "D15": ("C15", D15),
-    "D16": ("C16", D16), "D16b": ("C16", D16b), "D18": ("C18", D18),
+    "D16": ("C16", D16), "D16b": ("C16", D16b), "D16d": ("C16", D16d), "D18": ("C18", D18),
 }
 
 
